@@ -48,7 +48,7 @@ def run_one(harness, func, timeout, env=None, per_path=None):
     elif ': error:' in l:
       status = 'refuted'
       msg = l.split(': error: ', 1)[1]
-      m = re.search(r'when calling %s\((.*)\)(?: \(which returns|$)' % re.escape(func), msg)
+      m = re.search(r'when calling %s\((.*?)\)(?: \(which returns .*\))?\s*$' % re.escape(func), msg)
       if m:
         args = m.group(1)
       break
@@ -59,10 +59,28 @@ def run_one(harness, func, timeout, env=None, per_path=None):
   return {'func': func, 'status': status, 'message': msg[:600], 'args': args, 'secs': secs}
 
 
-def parse_args(argstr, extra_ns=None):
-  ns = {'__builtins__': {'None': None, 'True': True, 'False': False, 'dict': dict, 'list': list, 'tuple': tuple, 'bytes': bytes}}
+def parse_args(argstr, extra_ns=None, names=None):
+  """Counterexample arguments as a dict; positional arguments are named after `names`."""
+  ns = {'__builtins__': {'None': None, 'True': True, 'False': False, 'dict': dict, 'list': list, 'tuple': tuple, 'bytes': bytes,
+                         'float': float, 'int': int}}
   ns.update(extra_ns or {})
-  return eval('dict(' + argstr + ')', ns)   # pylint: disable=eval-used
+  ns['_capture'] = lambda *a, **k: (a, k)
+  a, k = eval('_capture(' + argstr + ')', ns)   # pylint: disable=eval-used
+  out = dict(k)
+  for i, v in enumerate(a):
+    out[(names or [])[i] if names and i < len(names) else 'arg%d' % i] = v
+  return out
+
+
+def path_of(harness):
+  return os.path.join(HARNESS_DIR, harness)
+
+
+def names_of(path, func):
+  m = re.search(r'def %s\((.*?)\)\s*(?:->.*)?:' % re.escape(func), open(path).read(), re.S)
+  if not m:
+    return []
+  return [p.split(':')[0].split('=')[0].strip() for p in m.group(1).split(',') if p.strip()]
 
 
 def run_many(jobs, workers=12):
@@ -87,7 +105,7 @@ def discharge(run, harness, specs, timeout, replay_fn, env=None, key_prefix=''):
       run.ob(name, 'sat', r['secs'], detail=r['message'][:400])
       args = None
       try:
-        args = parse_args(r['args']) if r['args'] is not None else None
+        args = parse_args(r['args'], names=names_of(path_of(harness), func)) if r['args'] is not None else None
       except Exception as ex:   # pylint: disable=broad-except
         run.fail('%s: could not parse counterexample %r (%r)' % (name, r['args'], ex))
         continue
